@@ -89,6 +89,8 @@ impl Case {
             for st in steps.split(',') {
                 if st == "p" {
                     p = p.parent();
+                } else if st == "r" {
+                    p = p.root();
                 } else {
                     let arg = unhex(&st[1..]);
                     // arguments are generated as valid UTF-8
